@@ -234,6 +234,9 @@ class Tokenizer:
                                 value = self.unicodesub(_replstring, found)
                             else:
                                 value = self.unicodesub(_repl, found)
+                                if name == 'COMMENT' and '*/' in value[2:-2]:
+                                    # an escape which would end the comment
+                                    value = found
 
                         else:
                             if 'ATKEYWORD' == name:
